@@ -79,7 +79,9 @@ def concurrent(w, v, tier, seed):
         # the part of C15/C03 that survives concurrency, on what the code did
         if min(files.values()) < r["in"]["old"] or any(f["r"] == "ok" and f["v"] < r["in"]["old"] for f in r["follow"]):
             below += 1
-    return {"model_states": mc.distinct, "schedules_in_model": len(beh), "schedules_with_lost_update_in_model": len(lost),
+    ap = vlib.apalache_inductive("ConcCore", "c15-conc-core")
+    return {"unbounded_versions": {"module": "ConcCore.tla", "apalache_inductive_invariant": "IndInv (TypeOK, NeverBelowEarlier, NeverTorn, SuccessNotOlder, PassedMeansNotOlder, OkAtEnd) for every natural-number Old and pair of served versions", "apalache_seconds": ap},
+            "model_states": mc.distinct, "schedules_in_model": len(beh), "schedules_with_lost_update_in_model": len(lost),
             "schedules_run_with_two_processes": len(rows) - skipped, "agree_with_model": agree, "skipped_gate_timeouts": skipped,
             "runs_where_a_successful_cycles_version_was_overwritten_by_a_lower_one": lost_seen,
             "runs_ending_below_what_was_trusted_before_both": below,
